@@ -77,6 +77,7 @@ func TestMkReplays(t *testing.T) {
 	// F9: week pattern beyond the calendar
 	write("C15", "fixed_F9_week_pattern_9999_W53", "--period 9999-W53 panicked", caseC15{Part: "pattern", S: "9999-W53"})
 	write("C15", "fixed_F9_week_pattern_9999_W99", "--period 9999-W99 panicked", caseC15{Part: "pattern", S: "9999-W99"})
+	write("C15", "fixed_F14_week_pattern_9999_W52", "--period 9999-W52 panicked", caseC15{Part: "pattern", S: "9999-W52"})
 	// F10: known finding: summary line ending in a lone CR does not survive printing
 	e10 := dur(60)
 	e10.Summary = model.Texts("foo\r")
